@@ -213,3 +213,14 @@ Definition gsem_avc (o : op) (vs : list (option value)) : option bool :=
 (* the activity pattern the caller's expressions evaluate to *)
 Definition pattern (en : env) (acts : list expr) : nat -> bool :=
   fun v => holds gsem_avc en (nth v acts (PyBool false)).
+
+(* hypotheses of the theorems: every is_active entry evaluates to a boolean,
+   and mentions only variables that existed before the call *)
+Definition acts_defined (en : env) (acts : list expr) : Prop :=
+  forall a, In a acts -> exists b, eval gsem_avc en a = Some (VB b).
+Definition fresh_below (k : nat) (l : list expr) : Prop :=
+  forall a, In a l -> (max_id a <= k)%nat.
+
+(* what a call added to the solver *)
+Definition new_cons (st st' : state) : list expr := skipn (length (cons st)) (cons st').
+Definition new_vars (st st' : state) : list vdecl := skipn (length (vars st)) (vars st').
